@@ -27,7 +27,8 @@ RULE = ("(A) random interval pairs (scalars, arrays, Timeseries; +-inf; inconsis
         "(multi-pass, keep-soft, single-pass) with goals sharing a quantity across priorities incl. "
         "critical goals: stores after each priority vs the model, attainment of earlier goals on later "
         "solutions. non-trivial = shared function key / critical merge / non-finite step; distinct = "
-        "abstracted case shapes")
+        "abstracted case shapes"
+        ' Trade-off runs: kept soft constraints / single pass with unequal member probabilities and two-sided targets only one member can meet, and priorities whose optimal objective is negative, followed by a priority pulling the other way.')
 MODELLED = ("goal_programming_mixin_base.py _GoalConstraint.update_bounds (449-493), _gp_goal_hard_constraint "
             "(970-1059), _gp_update_constraint_store (1061-1068); goal_programming_mixin.py "
             "__goal_hard_constraint (343-436), the store update of __soft_to_hard_constraints (438-556)")
